@@ -425,7 +425,11 @@ def _build_part(b, script, worder, norder, rng, noise, mem_base):
         elif k == 'O':
             o = pyrtl.Output(w['w'], w['n'], block=blk)
         elif k == 'C':
-            o = pyrtl.Const(w['v'], w['w'], name=w['n'], block=blk)
+            if w.get('sg') and w['w'] >= 2 and (w['v'] >> (w['w'] - 1)):
+                # the same bit pattern, written the way a user writes a negative constant
+                o = pyrtl.Const(w['v'] - (1 << w['w']), w['w'], name=w['n'], signed=True, block=blk)
+            else:
+                o = pyrtl.Const(w['v'], w['w'], name=w['n'], block=blk)
         elif k == 'R':
             o = pyrtl.Register(w['w'], w['n'], reset_value=w.get('rv'), block=blk)
         else:
